@@ -618,7 +618,7 @@ fn run_host<F: Flavour>(sc: &InjSc, with_script: bool, stats: &mut Stats) -> (Op
         nodes: before,
         graph: None,
     };
-    match caught(|| w2.compare_with(&ctx.model).and_then(|_| w2.check_invariant())) {
+    match caught(|| w2.compare_with(&ctx.model).and_then(|_| w2.check_invariant_level(if w2.n() > 64 { 1 } else { 2 }))) {
         Caught::Ok(Ok(())) => (None, None),
         Caught::Ok(Err(m)) => (
             Some(Violation::new(
@@ -878,6 +878,72 @@ fn gen_host_spec(rng: &mut Rng, directed: bool, n: usize) -> SearchSpec {
     }
 }
 
+/// A traversal that goes hundreds of nodes deep (a chain with side edges), its closure changing
+/// the node under the cursor far from the root: code paths that depend on the depth reached.
+fn gen_deep(rng: &mut Rng, tier: Tier, flavour: String, directed: bool) -> InjSc {
+    let n = rng.range(520, if tier == Tier::Quick { 1400 } else { 3000 });
+    let prios: Vec<u32> = (0..n).map(|_| rng.below(4) as u32).collect();
+    let mut initial = Vec::new();
+    let mut next_edge = 100u64;
+    for i in 0..n - 1 {
+        next_edge += 1;
+        initial.push((i, i + 1, next_edge));
+        if rng.chance(1, 2) {
+            next_edge += 1;
+            let j = if rng.chance(3, 4) { (i + 2 + rng.below(3)).min(n - 1) } else { rng.below(n) };
+            initial.push((i, j, next_edge));
+        }
+    }
+    let kind = *rng.pick(&[SKind::Pre, SKind::Post, SKind::Pre, SKind::Post, SKind::Dfs, SKind::Bfs, SKind::PfsMin]);
+    let order = matches!(kind, SKind::Pre | SKind::Post);
+    let closure = if rng.coin() { Closure::ForEach } else { Closure::Filter };
+    let transpose = directed && rng.chance(1, 4);
+    let spec = SearchSpec {
+        kind,
+        mode: if order { *rng.pick(&[SMode::Nodes, SMode::Edges]) } else { SMode::Find },
+        target: None,
+        transpose,
+        closure,
+        mask: 0,
+        query: false,
+    };
+    let root = if transpose { n - 1 } else { 0 };
+    let ns = rng.range(1, 6);
+    let mut script = Vec::new();
+    for _ in 0..ns {
+        let h = Prov::Own;
+        script.push(match rng.below(10) {
+            0..=3 => InjOp::Isolate { u: if rng.chance(3, 4) { T::YSrc } else { T::YDst }, h },
+            4..=6 => InjOp::Disconnect { u: T::YSrc, k: T::YDst, h },
+            7 => InjOp::Disconnect { u: T::YDst, k: T::YSrc, h },
+            8 => {
+                next_edge += 1;
+                InjOp::Connect { u: T::YSrc, v: T::Abs(rng.below(n)), e: next_edge, h }
+            }
+            _ => InjOp::Query { kind: rng.below(8) as u8, u: T::YSrc, k: T::YDst },
+        });
+    }
+    // the script fires anywhere along the walk, mostly far from the root
+    let horizon = rng.range(n / 2, 2 * n);
+    let mut fire = vec![0u8; horizon];
+    for _ in 0..script.len() {
+        let i = rng.below(horizon);
+        fire[i] = fire[i].saturating_add(1);
+    }
+    InjSc {
+        flavour,
+        prios,
+        in_graph: false,
+        hash_seed: rng.next_u64(),
+        initial,
+        host: Host::Search { root, spec },
+        script,
+        fire,
+        every_step: None,
+        sole: false,
+    }
+}
+
 impl Engine for Inject {
     type Sc = InjSc;
 
@@ -891,6 +957,9 @@ impl Engine for Inject {
             flavour = f;
         }
         let directed = flavour.contains("digraph");
+        if rng.chance(1, 4000) {
+            return gen_deep(rng, tier, flavour, directed);
+        }
         let small = rng.chance(60, 100);
         let n = if small { rng.range(1, 3) } else { rng.range(3, 7) };
         let prios: Vec<u32> = (0..n).map(|_| rng.below(4) as u32).collect();
